@@ -47,6 +47,8 @@ type script struct {
 	RegistrationTimeoutMs int64
 	RequestTimeoutMs      int64
 
+	// DropAtAccept: the connection is closed as soon as it is accepted (byte offset 0), no handshake
+	DropAtAccept bool
 	// OnConfigured runs (in the runtime end's goroutine) as soon as Configure was answered without error,
 	// before Synchronize is sent: what a runtime does with a plugin it now considers ready
 	OnConfigured func(*session)
@@ -394,6 +396,11 @@ func (rt *runtime) acceptLoop() {
 			return
 		}
 		rt.mu.Lock()
+		if rt.sc.DropAtAccept {
+			rt.mu.Unlock()
+			conn.Close()
+			continue
+		}
 		sc := rt.sc
 		s := &session{rt: rt, id: len(rt.sessions) + 1, sc: sc,
 			registered: make(chan struct{}), configured: make(chan struct{}),
